@@ -121,8 +121,11 @@ class ProtoExporter:
         # Create the Proto-Module
         pmod = vckt.Module()
 
-        # Create its serialized name
+        # Create its serialized name, and reserve it right away:
+        # the Modules exported while this one is in progress (its dependencies) must not take it either.
         pmod.name = self.export_module_name(module)
+        mapping = ModuleMapping(module, pmod)
+        self.modules_by_name[pmod.name] = mapping
 
         # Create its Signal-objects, which include the hdl21.Module's Ports
         for sig in list(module.signals.values()) + list(module.ports.values()):
@@ -146,9 +149,7 @@ class ProtoExporter:
             pmod.literals.append(export_literal(literal))
 
         # Store references to the result, and return it
-        mapping = ModuleMapping(module, pmod)
         self.modules_by_id[id(module)] = mapping
-        self.modules_by_name[pmod.name] = mapping
         self.pkg.modules.append(pmod)
         return pmod
 
